@@ -3,6 +3,7 @@ CONSTANTS
   Blueprints <- Thorough
   AsFound_LabourDemandLate = FALSE
   AsFound_LiteralSupGood = FALSE
+  AsFound_DividendsPerPayer = FALSE
 INVARIANT TypeOK
 INVARIANT C01_SFC
 INVARIANT C04_MarketsClear
